@@ -206,7 +206,10 @@ def run_batch(engine, variant, seed, tag, profile, runs, steps, extra_args=(), l
     if timeout is None:
         # a chunk normally takes well under a second per 1000 runs; a worker that needs
         # 100x that is stuck in a call that does not return (reported from its journal)
-        timeout = 45 + (runs // nchunks) * steps * 0.0004
+        per_run = {"sched": 0.003, "buf": 0.002}.get(engine, 0.0004 * max(steps, 1))
+        if profile == "recycle":
+            per_run = 0.05 + steps * 2e-6
+        timeout = 45 + (runs // nchunks) * per_run
     bounds = [first + (runs * k) // nchunks for k in range(nchunks + 1)]
     chunks = [(bounds[k], bounds[k + 1]) for k in range(nchunks) if bounds[k] < bounds[k + 1]]
     violations, summaries = [], []
